@@ -6,17 +6,23 @@ VERIF = os.environ.get("VERIF_ROOT", "/verif")
 ENV = dict(os.environ, GOFLAGS="-mod=mod", GOPROXY="off", GOSUMDB="off", GOTOOLCHAIN="local")
 C = json.load(open(os.path.join(VERIF, "selftest", "corpus.json")))
 def run_one(e, harmless):
-    mid, prop, fn = e["id"], e["property"], e["file"]
-    edits = e["edits"] if harmless else [{"old": e["old"], "new": e["new"]}]
+    mid, prop, fn = e["id"], e["property"], e.get("file")
     d = tempfile.mkdtemp(prefix="selftest.")
     try:
         subprocess.run(["rsync", "-a", "--exclude", ".git", "/repo/", d + "/"], check=True)
-        p = os.path.join(d, fn); s = open(p).read()
-        for ed in edits:
-            if ed["old"] not in s:
-                return (mid, prop, "STALE", "edit does not apply")
-            s = s.replace(ed["old"], ed["new"], 1)
-        open(p, "w").write(s)
+        if e.get("patch"):
+            # a whole diff (kept under /verif), applied with patch(1) to the scratch copy
+            pr = subprocess.run(["patch", "-p1", "-s", "-i", os.path.join(VERIF, e["patch"])], cwd=d, capture_output=True, text=True)
+            if pr.returncode != 0:
+                return (mid, prop, "STALE", "patch does not apply: " + pr.stdout[-200:])
+        else:
+            edits = e["edits"] if harmless else [{"old": e["old"], "new": e["new"]}]
+            p = os.path.join(d, fn); s = open(p).read()
+            for ed in edits:
+                if ed["old"] not in s:
+                    return (mid, prop, "STALE", "edit does not apply")
+                s = s.replace(ed["old"], ed["new"], 1)
+            open(p, "w").write(s)
         benv = dict(ENV)
         if e.get("goos"): benv.update(GOOS=e["goos"], CGO_ENABLED="0")
         b = subprocess.run(["go", "build", "./..."], cwd=d, env=benv, capture_output=True, text=True)
